@@ -66,6 +66,7 @@ type ModelCfg struct {
 	Ncpu    int     `json:"ncpu"`
 	Keep    KeepCfg `json:"keep"`
 	Async   bool    `json:"async"`
+	Limit   int     `json:"limit"` // cardinality limit (OTEL_GO_X_CARDINALITY_LIMIT when the instruments are created), 0 = none
 }
 
 // StreamSpec adds what the model does not see: how the configuration is realised.
@@ -425,7 +426,7 @@ type instSpec struct {
 	streams []StreamSpec
 }
 
-func newWorld(id int, res *vh.Result, filter, how string, temps []string, specs []instSpec, nonce uint64) *world {
+func newWorld(id int, res *vh.Result, filter, how string, temps []string, specs []instSpec, nonce uint64, limit int) *world {
 	w := &world{id: id, nonce: nonce | 1<<62, filter: filter, filterHow: how, res: res, lines: map[string][]map[string]any{}, collecting: -1}
 	var opts []sdkmetric.Option
 	for _, t := range temps {
@@ -474,9 +475,13 @@ func newWorld(id int, res *vh.Result, filter, how string, temps []string, specs 
 	w.mp = sdkmetric.NewMeterProvider(opts...)
 	os.Unsetenv(env)
 	meter := w.mp.Meter("x01")
+	if limit > 0 {
+		os.Setenv("OTEL_GO_X_CARDINALITY_LIMIT", fmt.Sprint(limit))
+	}
 	for _, in := range w.insts {
 		w.create(meter, in)
 	}
+	os.Unsetenv("OTEL_GO_X_CARDINALITY_LIMIT")
 	for ri, r := range w.readers {
 		for _, in := range w.insts {
 			for si := range in.streams {
@@ -485,6 +490,7 @@ func newWorld(id int, res *vh.Result, filter, how string, temps []string, specs 
 				m := in.streams[si].spec.Model
 				m.Ncpu = runtime.NumCPU()
 				m.Filter = filter
+				m.Limit = limit
 				w.lines[sc] = append(w.lines[sc], map[string]any{"ev": "New", "sc": sc, "temp": r.temp, "C": m,
 					"meta": map[string]any{"kind": in.kind, "float": in.float, "how": how, "stream": in.streams[si].spec.Name}})
 			}
@@ -973,7 +979,7 @@ func replay(args []string) {
 			}
 			guarded(res, map[string]any{"edge": idx, "path": er.Path, "cfg": sp}, func() {
 				w := newWorld(idx*8+rep, res, sp.Model.Filter, how, temps,
-					[]instSpec{{name: "i0", kind: sp.Kind, float: sp.Float, streams: []StreamSpec{sp}}}, uint64(seed)<<32|uint64(idx))
+					[]instSpec{{name: "i0", kind: sp.Kind, float: sp.Float, streams: []StreamSpec{sp}}}, uint64(seed)<<32|uint64(idx), 0)
 				in := w.insts[0]
 				both := []int{0, 1}
 				collectAll := func() {
